@@ -585,6 +585,190 @@ func engineC02(c *vctx) error {
 			buf, lerr := repo.LoadBlob(ctx, missing, nil)
 			c.Case("load-blob-0loc", true, 0, fmt.Sprintf("CBlob %s %s [] %s %s", coqHex(missing.ID[:]), coqNat(0), c02OptID(lerr == nil, c02Digest(buf)), coqNat(0)), "LoadBlob of an unknown ID")
 		}
+
+		// ---- (B') the same reads THROUGH THE LOCAL CACHE: a (possibly damaged) cached copy is the first
+		// answer, cache.Forget + refetch from the backend gives the second one.  Every case uses a fresh
+		// repository object (cache.Forget deletes a given file at most once per process object). ----
+		cachePath := func(id restic.ID) string {
+			var found string
+			_ = filepath.Walk(e.cache, func(p string, fi os.FileInfo, err error) error {
+				if err == nil && !fi.IsDir() && fi.Name() == id.String() {
+					found = p
+				}
+				return nil
+			})
+			return found
+		}
+		openCached := func() (*repository.Repository, error) {
+			e.gopts.NoCache = false
+			defer func() { e.gopts.NoCache = true }()
+			return e.openRepo(ctx)
+		}
+		ncache := c.n(24, 240)
+		ctypes := []restic.FileType{restic.SnapshotFile, restic.IndexFile}
+		for r := 0; r < ncache; r++ {
+			t := ctypes[r%2]
+			ids := files[t]
+			id := ids[rng.intn(len(ids))]
+			size := len(c02ReadFile(e, t, id))
+			mode := []string{"cold", "warm", "warm-flipped", "warm-foreign", "warm-truncated", "warm-flipped"}[r%6]
+			if p := cachePath(id); p != "" {
+				_ = os.Remove(p)
+			}
+			if mode != "cold" {
+				rw, err := openCached()
+				if err != nil {
+					return fmt.Errorf("open cached: %w", err)
+				}
+				if _, err := rw.LoadRaw(ctx, t, id); err != nil {
+					return fmt.Errorf("warm-up load: %w", err)
+				}
+				p := cachePath(id)
+				if p == "" {
+					return fmt.Errorf("warm-up did not populate the cache for %v %v", t, id.Str())
+				}
+				cur, _ := os.ReadFile(p)
+				switch mode {
+				case "warm-flipped":
+					cur[[]int{0, 16, len(cur) - 1, rng.intn(len(cur))}[rng.intn(4)]] ^= 1 << uint(rng.intn(8))
+				case "warm-truncated":
+					cur = cur[:[]int{0, 16, 31, len(cur) - 1}[rng.intn(4)]]
+				case "warm-foreign":
+					o := ids[(indexOfID(ids, id)+1)%len(ids)]
+					cur = c02ReadFile(e, t, o)
+				}
+				_ = os.Chmod(p, 0o600)
+				if err := os.WriteFile(p, cur, 0o600); err != nil {
+					return fmt.Errorf("damage cache file: %w", err)
+				}
+			}
+			var cached []byte
+			haveCached := false
+			if p := cachePath(id); p != "" {
+				cached, _ = os.ReadFile(p)
+				haveCached = true
+			}
+			rc, err := openCached()
+			if err != nil {
+				return fmt.Errorf("open cached: %w", err)
+			}
+			k1 := kinds[rng.intn(len(kinds))]
+			k2 := kinds[rng.intn(len(kinds))]
+			if r%3 == 0 {
+				k1 = "pass"
+			}
+			alter.set(id.String(), []c02Action{genAct(t, id, k1, size), genAct(t, id, k2, size)})
+			useUnpacked := r%4 >= 2
+			var buf []byte
+			var lerr error
+			if useUnpacked {
+				buf, lerr = rc.LoadUnpacked(ctx, t, id)
+			} else {
+				buf, lerr = rc.LoadRaw(ctx, t, id)
+			}
+			var resps []c02Resp
+			if haveCached {
+				resps = append(resps, c02Resp{data: cached})
+			}
+			resps = append(resps, alter.clear()...)
+			if useUnpacked {
+				var items []string
+				for _, rs := range resps {
+					p, ok := c02DecodeUnpacked(key, version, t, rs.data, dec)
+					items = append(items, coqTuple(fmt.Sprintf("mkraw %s %s", c02Digest(rs.data), coqBool(rs.err)), coqBool(len(rs.data) < crypto.Extension), c02OptID(ok, c02Digest(p))))
+				}
+				c.Hist(fmt.Sprintf("cached-unpacked:%s:%s=%v", mode, k1, lerr == nil))
+				c.Case("cached-load-unpacked-"+t.String(), true, size, fmt.Sprintf("CUnp %s %s %s %s", c02FType(t), coqHex(id[:]), coqList(items), c02OptID(lerr == nil, c02Digest(buf))),
+					fmt.Sprintf("cache=%s LoadUnpacked(%v,%s) backend script=%s,%s -> err=%v answers=%d", mode, t, id.Str(), k1, k2, lerr != nil, len(resps)))
+			} else {
+				var items []string
+				for _, rs := range resps {
+					items = append(items, fmt.Sprintf("mkraw %s %s", c02Digest(rs.data), coqBool(rs.err)))
+				}
+				obs := "ORawErr"
+				switch {
+				case lerr == nil:
+					obs = "(ORawOk " + c02Digest(buf) + ")"
+				case errors.Is(lerr, restic.ErrInvalidData):
+					obs = "(ORawInvalid " + c02Digest(buf) + ")"
+				}
+				c.Hist(fmt.Sprintf("cached-raw:%s:%s=%.8s", mode, k1, obs))
+				c.Case("cached-load-raw-"+t.String(), true, size, fmt.Sprintf("CRaw %s %s %s %s %s", c02FType(t), coqHex(id[:]), coqList(items), obs, coqNat(len(resps))),
+					fmt.Sprintf("cache=%s LoadRaw(%v,%s) backend script=%s,%s -> %.12s answers=%d", mode, t, id.Str(), k1, k2, obs, len(resps)))
+			}
+		}
+		// tree blobs live in cached (metadata) packs: damage the cached pack inside the blob, LoadBlob must
+		// forget the copy, refetch the pack and still return the right plaintext
+		var trees []loc
+		for _, l := range locs {
+			if l.h.Type == restic.TreeBlob && len(byID[l.h]) == 1 {
+				trees = append(trees, l)
+			}
+		}
+		for r := 0; r < c.n(8, 60) && len(trees) > 0; r++ {
+			l := trees[rng.intn(len(trees))]
+			if p := cachePath(l.pb.Pack); p != "" {
+				_ = os.Remove(p)
+			}
+			rw, err := openCached()
+			if err != nil {
+				return fmt.Errorf("open cached: %w", err)
+			}
+			if err := rw.LoadIndex(ctx, restic.NewNoopPrinter()); err != nil {
+				return fmt.Errorf("loadindex cached: %w", err)
+			}
+			if _, err := rw.LoadBlob(ctx, l.h, nil); err != nil {
+				return fmt.Errorf("warm-up LoadBlob: %w", err)
+			}
+			p := cachePath(l.pb.Pack)
+			if p == "" {
+				return fmt.Errorf("warm-up did not cache pack %v", l.pb.Pack.Str())
+			}
+			mode := []string{"warm", "warm-flipped", "warm-flipped", "warm-truncated"}[r%4]
+			cur, _ := os.ReadFile(p)
+			off, ln := int(l.pb.Blob.Offset), int(l.pb.Blob.Length)
+			switch mode {
+			case "warm-flipped":
+				cur[off+[]int{0, 16, ln - 1, rng.intn(ln)}[rng.intn(4)]] ^= 1 << uint(rng.intn(8))
+			case "warm-truncated":
+				cur = cur[:off+rng.intn(ln)]
+			}
+			_ = os.Chmod(p, 0o600)
+			_ = os.WriteFile(p, cur, 0o600)
+			rc, err := openCached()
+			if err != nil {
+				return fmt.Errorf("open cached: %w", err)
+			}
+			if err := rc.LoadIndex(ctx, restic.NewNoopPrinter()); err != nil {
+				return fmt.Errorf("loadindex cached: %w", err)
+			}
+			k1 := []string{"pass", "pass", "flip", "fail"}[rng.intn(4)]
+			a1 := c02Action{kind: k1}
+			if k1 == "flip" {
+				a1.pos = (off + rng.intn(ln)) // inside the blob (the whole pack is fetched)
+			}
+			alter.set(l.pb.Pack.String(), []c02Action{a1, {kind: "pass"}, {kind: "pass"}})
+			buf, lerr := rc.LoadBlob(ctx, l.h, nil)
+			answers := []c02Resp{{data: cur}}
+			answers = append(answers, alter.clear()...)
+			var items []string
+			for _, rs := range answers {
+				d := rs.data
+				switch {
+				case rs.err || len(d) < off+ln:
+					items = append(items, "BErr")
+				default:
+					if pl, ok := c02DecodeBlob(key, d[off:off+ln], l.pb.IsCompressed(), dec); ok {
+						items = append(items, "(BPlain "+c02Digest(pl)+")")
+					} else {
+						items = append(items, "BUndecodable")
+					}
+				}
+			}
+			c.Hist(fmt.Sprintf("cached-blob:%s:%s ok=%v answers=%d", mode, k1, lerr == nil, len(answers)))
+			c.Case("cached-load-blob-tree", true, ln, fmt.Sprintf("CBlob %s %s %s %s %s", coqHex(l.h.ID[:]), coqNat(1), coqList(items), c02OptID(lerr == nil, c02Digest(buf)), coqNat(len(answers))),
+				fmt.Sprintf("cache=%s LoadBlob(%v) backend first answer=%s -> err=%v answers=%d", mode, l.h, k1, lerr != nil, len(answers)))
+		}
 		cancel()
 		c.Info("repo-"+cf.name, fmt.Sprintf("version=%d blobs=%d packs=%d", version, len(locs), len(files[restic.PackFile])))
 		_ = ci
